@@ -103,7 +103,7 @@ def rule(prog, res, classes, rule_name='setter-stores', minimum=None, exclusive=
             if lhs is None:
                 continue
             lt = Rs.render(lhs)
-            mf = re.match(r'^this\.(\w+)$', lt)
+            mf = re.match(r'^this\.(\w+)(?:\[\d+\])?$', lt)
             if not mf or mf.group(1) not in read or len(read) != 1:
                 continue
             for x in [rhs] + list(s.descendants(rhs)):
@@ -112,6 +112,9 @@ def rule(prog, res, classes, rule_name='setter-stores', minimum=None, exclusive=
                     changed = 'arithmetic (%s)' % Rs.render(x)[:80]
                 if xn['k'] in ('CXXStaticCastExpr', 'CStyleCastExpr', 'CXXFunctionalCastExpr', 'ImplicitCastExpr') and xn.get('ck') == 'FloatingToIntegral' and 'arg0' in Rs.render(x):
                     changed = 'a float-to-integer conversion (%s)' % Rs.render(x)[:80]
+                if xn['k'] == 'ConditionalOperator' and 'arg0' in Rs.render(xn['cond']) and any('cv' in s.nodes[s.strip(b_, 'all')] or s.nodes[s.strip(b_, 'all')]['k'] in ('FloatingLiteral', 'IntegerLiteral', 'UnaryOperator')
+                                                                                               for b_ in (xn['lhs'], xn['rhs'])):
+                    changed = 'a replacement of some values by a constant (%s)' % Rs.render(x)[:80]
         if changed and wrote & read:
             res.viol(rule_name, inst, s.loc(), 'the setter stores its argument through %s: the value read back through the getter of the same name is not the value that was set' % changed,
                      function=s.sig, expr='setter:' + q.split('::')[-1], sure=True)
